@@ -34,8 +34,8 @@ Trace == ndJsonDeserialize(IOEnv.TRACE)
 
 Findings == {"PersistJSONTypes", "AofReplayClock", "RewriteNotAtomic"}
 
-VARIABLES l, st, hist, rws, dev, nskip, nimg, wpc, sync
-vars == <<l, st, hist, rws, dev, nskip, nimg, wpc, sync>>
+VARIABLES l, st, hist, rws, dev, nskip, nimg, wpc, sync, saves
+vars == <<l, st, hist, rws, dev, nskip, nimg, wpc, sync, saves>>
 
 \* hist[p + 1] = [S, cmd, db, logged] after p commands; rws = positions (acked counts) and times of rewrites
 
@@ -124,7 +124,7 @@ WriteOps == {"SET", "MSET", "DEL", "PERSIST", "EXPIRE", "PEXPIRE", "EXPIREAT", "
              "ZREMRANGEBYRANK", "ZREMRANGEBYLEX", "ZDIFFSTORE", "ZINTERSTORE", "ZUNIONSTORE", "ZRANGESTORE"}
 LoggedOK(e) == e.logged <=> (e.cmd[1].s \in WriteOps /\ e.r.t # "err")
 
-Init == l = 1 /\ st = EmptyStore /\ hist = <<>> /\ rws = <<>> /\ nskip = 0 /\ nimg = 0 /\ wpc = <<"idle", "idle">> /\ sync = "always"
+Init == l = 1 /\ st = EmptyStore /\ hist = <<>> /\ rws = <<>> /\ nskip = 0 /\ nimg = 0 /\ wpc = <<"idle", "idle", 0>> /\ sync = "always" /\ saves = <<>>
         /\ dev = [n \in Deviations \cup Findings |-> 0]
 
 TraceReset ==
@@ -132,7 +132,7 @@ TraceReset ==
     /\ st' = ProjStore(Trace[l].st)
     /\ hist' = <<[S |-> ProjStore(Trace[l].st), cmd |-> <<>>, db |-> "0", logged |-> FALSE, now |-> Trace[l].now]>>
     /\ rws' = <<>>
-    /\ wpc' = <<"idle", "idle">> /\ sync' = Trace[l].cfg.sync
+    /\ wpc' = <<"idle", "idle", 0>> /\ sync' = Trace[l].cfg.sync /\ saves' = <<>>
     /\ l' = l + 1 /\ UNCHANGED <<dev, nskip, nimg>>
 
 TraceCmd ==
@@ -143,13 +143,13 @@ TraceCmd ==
        /\ nskip' = IF Outcome(e, {}).rel = "skip" THEN nskip + 1 ELSE nskip
        /\ st' = ProjStore(e.st)
        /\ hist' = Append(hist, [S |-> ProjStore(e.st), cmd |-> e.cmd, db |-> e.db, logged |-> e.logged, now |-> e.now])
-    /\ l' = l + 1 /\ UNCHANGED <<dev, rws, nimg, wpc, sync>>
+    /\ l' = l + 1 /\ UNCHANGED <<dev, rws, nimg, wpc, sync, saves>>
 
 TraceRewrite ==
     /\ l <= Len(Trace) /\ Trace[l].ev = "rewrite"
     /\ ~("err" \in DOMAIN Trace[l])
     /\ rws' = Append(rws, [at |-> Trace[l].acked, trunc |-> Trace[l].trunc, now |-> Trace[l].now])
-    /\ l' = l + 1 /\ UNCHANGED <<st, hist, dev, nskip, nimg, wpc, sync>>
+    /\ l' = l + 1 /\ UNCHANGED <<st, hist, dev, nskip, nimg, wpc, sync, saves>>
 
 \* File-operation events: the order of the instrumented operations of one run must be a run of
 \* the writer / rewrite step programs (the action structure of spec/Persist.tla):
@@ -158,35 +158,48 @@ TraceRewrite ==
 \*             aof.log.truncate [aof.log.select] aof.log.sync rw.done
 \* Under "always" the sync between write and cmd.logged is mandatory; under "everysec" sync
 \* events of the background ticker may appear anywhere.
-\* pc = <<writer pc, rewrite pc>>: a client's command may run inside the rewrite window
+SnapOps == {"snap.copied", "snap.manifest.create", "snap.manifest.write", "snap.manifest.sync", "snap.manifest.rename",
+            "snap.mkdir", "snap.state.create", "snap.state.write", "snap.state.sync", "snap.state.rename", "snap.done",
+            "snap.finished"}
+
+\* the snapshot writer's step program (spec/SnapFiles.tla, StateFirst order)
+SnapSeq == <<"snap.copied", "snap.mkdir", "snap.state.create", "snap.state.write", "snap.state.sync", "snap.state.rename",
+             "snap.manifest.create", "snap.manifest.write", "snap.manifest.sync", "snap.manifest.rename", "snap.done",
+             "snap.finished">>
+SnapNext(p, op) == IF p = 0 /\ op = "snap.finished" THEN 0                 \* an attempt that found nothing new
+                   ELSE IF p < Len(SnapSeq) /\ SnapSeq[p + 1] = op THEN (IF p + 1 = Len(SnapSeq) THEN 0 ELSE p + 1)
+                   ELSE -1
+
+\* pc = <<writer pc, rewrite pc, snapshot pc>>: a client's command may run inside the rewrite window
 FopStep(pc, op, sy) ==
     LET w == pc[1]   r == pc[2] IN
-    CASE op = "cmd.handled"      /\ w \in {"idle", "handled"}             -> <<"handled", r>>
-      [] op = "aof.log.select"   /\ w = "handled"                         -> <<"selected", r>>
-      [] op = "aof.log.write"    /\ w \in {"handled", "selected"}         -> <<"written", r>>
-      [] op = "aof.log.sync"     /\ w = "written" /\ sy = "always"        -> <<"synced", r>>
-      [] op = "cmd.logged"       /\ w = (IF sy = "always" THEN "synced" ELSE "written") -> <<"idle", r>>
-      [] op = "aof.pre.copied"   /\ r = "idle" /\ w \in {"idle", "handled"} -> <<"idle", "rw1">>
-      [] op = "aof.pre.truncate" /\ r = "rw1"                             -> <<w, "rw2">>
-      [] op = "aof.pre.write"    /\ r = "rw2"                             -> <<w, "rw3">>
-      [] op = "aof.pre.sync"     /\ r = "rw3" /\ w \in {"idle", "handled"} -> <<"idle", "rw4">>
-      [] op = "aof.log.truncate" /\ r = "rw4"                             -> <<w, "rw5">>
-      [] op = "aof.log.select"   /\ r = "rw5"                             -> <<w, "rw5s">>
-      [] op = "aof.log.sync"     /\ r \in {"rw5", "rw5s"}                 -> <<w, "rw6">>
-      [] op = "rw.done"          /\ r = "rw6"                             -> <<w, "idle">>
+    CASE op = "cmd.handled"      /\ w \in {"idle", "handled"}             -> <<"handled", r, pc[3]>>
+      [] op = "aof.log.select"   /\ w = "handled"                         -> <<"selected", r, pc[3]>>
+      [] op = "aof.log.write"    /\ w \in {"handled", "selected"}         -> <<"written", r, pc[3]>>
+      [] op = "aof.log.sync"     /\ w = "written" /\ sy = "always"        -> <<"synced", r, pc[3]>>
+      [] op = "cmd.logged"       /\ w = (IF sy = "always" THEN "synced" ELSE "written") -> <<"idle", r, pc[3]>>
+      [] op = "aof.pre.copied"   /\ r = "idle" /\ w \in {"idle", "handled"} -> <<"idle", "rw1", pc[3]>>
+      [] op = "aof.pre.truncate" /\ r = "rw1"                             -> <<w, "rw2", pc[3]>>
+      [] op = "aof.pre.write"    /\ r = "rw2"                             -> <<w, "rw3", pc[3]>>
+      [] op = "aof.pre.sync"     /\ r = "rw3" /\ w \in {"idle", "handled"} -> <<"idle", "rw4", pc[3]>>
+      [] op = "aof.log.truncate" /\ r = "rw4"                             -> <<w, "rw5", pc[3]>>
+      [] op = "aof.log.select"   /\ r = "rw5"                             -> <<w, "rw5s", pc[3]>>
+      [] op = "aof.log.sync"     /\ r \in {"rw5", "rw5s"}                 -> <<w, "rw6", pc[3]>>
+      [] op = "rw.done"          /\ r = "rw6"                             -> <<w, "idle", pc[3]>>
       [] op = "aof.log.sync"     /\ sy = "everysec"                       -> pc
-      [] op = "end.running"      /\ w \in {"idle", "handled"} /\ r = "idle" -> <<"idle", "idle">>
-      [] OTHER -> <<"bad", "bad">>
+      [] op \in SnapOps /\ SnapNext(pc[3], op) # -1                         -> <<w, r, SnapNext(pc[3], op)>>
+      [] op = "end.running"      /\ w \in {"idle", "handled"} /\ r = "idle" -> <<"idle", "idle", pc[3]>>
+      [] OTHER -> <<"bad", "bad", 0>>
 
 TraceFop ==
     /\ l <= Len(Trace) /\ Trace[l].ev = "fop"
     /\ wpc' = FopStep(wpc, Trace[l].op, sync)
     /\ wpc'[1] # "bad"
-    /\ l' = l + 1 /\ UNCHANGED <<st, hist, rws, dev, nskip, nimg, sync>>
+    /\ l' = l + 1 /\ UNCHANGED <<st, hist, rws, dev, nskip, nimg, sync, saves>>
 
 TraceOther ==
     /\ l <= Len(Trace) /\ Trace[l].ev = "endrun"
-    /\ l' = l + 1 /\ UNCHANGED <<st, hist, rws, dev, nskip, nimg, wpc, sync>>
+    /\ l' = l + 1 /\ UNCHANGED <<st, hist, rws, dev, nskip, nimg, wpc, sync, saves>>
 
 \* result: set of finding names that explain the image ({} = the property holds), or {"violation"}, or {"skip"}
 ImageVerdict(e) ==
@@ -214,7 +227,50 @@ TraceImage ==
        /\ IF \E n \in v \cap Findings : dev[n] = 0
           THEN PrintT(<<"DEVIATION", l, v, e.at, e.acked, e.exec, e.cut>>) ELSE TRUE
     /\ nimg' = nimg + 1
-    /\ l' = l + 1 /\ UNCHANGED <<st, hist, rws, wpc, sync>>
+    /\ l' = l + 1 /\ UNCHANGED <<st, hist, rws, wpc, sync, saves>>
+
+
+(***************************************************************************)
+(* Snapshots (C03, C10).  saves[i] = [at, now] of the i-th snapshot that   *)
+(* completed.  A snapshot image (simage) was restored with snapshot        *)
+(* restore; e.nsave snapshots had completed when it was taken, and         *)
+(* e.insave tells that another one was being written.                      *)
+(***************************************************************************)
+LastSaveOf(i) == IF i = 0 THEN 0 ELSE saves[i].now
+
+TraceSave ==
+    /\ l <= Len(Trace) /\ Trace[l].ev = "save"
+    /\ LET e == Trace[l] IN
+       /\ ~("err" \in DOMAIN e)
+       /\ e.r.t = "simple"
+       /\ saves' = IF e.done THEN Append(saves, [at |-> e.acked, now |-> e.now]) ELSE saves
+       \* LASTSAVE: the time of the snapshot just taken; untouched by an attempt that found nothing new
+       /\ e.lastsave = (IF e.done THEN e.now ELSE LastSaveOf(Len(saves)))
+       \* "nothing new" is only a legal outcome when the dataset equals that of the last snapshot
+       /\ (e.done \/ (Len(saves) > 0 /\ Checkpoint(st, e.now, FALSE) =
+                                         Checkpoint(hist[saves[Len(saves)].at + 1].S, e.now, FALSE)))
+    /\ l' = l + 1 /\ UNCHANGED <<st, hist, rws, dev, nskip, nimg, wpc, sync>>
+
+SnapExpected(i, t, lossy) == IF i = 0 THEN EmptyStore ELSE Checkpoint(Checkpoint(hist[saves[i].at + 1].S, saves[i].now, lossy), t, FALSE)
+
+\* result: {} ok | {"PersistJSONTypes"} | {"violation"}
+SImageVerdict(e) ==
+    LET got   == Got(e)
+        cands == IF e.insave THEN {e.nsave, e.nsave + 1} ELSE {e.nsave}
+        hit(lossy) == {i \in cands : i <= Len(saves) /\ got = SnapExpected(i, e.now, lossy) /\ e.lastsave = LastSaveOf(i)}
+    IN IF "err" \in DOMAIN e THEN {"violation"}
+       ELSE IF hit(FALSE) # {} THEN {}
+       ELSE IF hit(TRUE) # {} /\ "PersistJSONTypes" \in Deviations THEN {"PersistJSONTypes"}
+       ELSE {"violation"}
+
+TraceSImage ==
+    /\ l <= Len(Trace) /\ Trace[l].ev = "simage"
+    /\ LET e == Trace[l]   v == SImageVerdict(e) IN
+       /\ v # {"violation"}
+       /\ dev' = [n \in DOMAIN dev |-> IF n \in v THEN dev[n] + 1 ELSE dev[n]]
+       /\ IF \E n \in v : dev[n] = 0 THEN PrintT(<<"DEVIATION", l, v, e.at, e.acked, e.nsave>>) ELSE TRUE
+    /\ nimg' = nimg + 1
+    /\ l' = l + 1 /\ UNCHANGED <<st, hist, rws, nskip, wpc, sync, saves>>
 
 \* durable again: the recovered server executes more writes (judged by Exec), is stopped, and a
 \* server restored from its directory serves exactly the state it had
@@ -236,7 +292,7 @@ TraceAgain ==
                           /\ Norm(ProjStore(e.st3), e.now) = Norm(ProjStore(e.st2), e.now)))
           /\ nskip' = IF a.skip THEN nskip + 1 ELSE nskip
     /\ nimg' = nimg + 1
-    /\ l' = l + 1 /\ UNCHANGED <<st, hist, rws, dev, wpc, sync>>
+    /\ l' = l + 1 /\ UNCHANGED <<st, hist, rws, dev, wpc, sync, saves>>
 
 TraceStuck ==
     /\ l <= Len(Trace)
@@ -257,6 +313,20 @@ TraceStuck ==
           /\ PrintT(<<"MISMATCH-LOGGED-REPLY", e.r>>)
           /\ PrintT(<<"MISMATCH-MODEL-STATE", Norm(Outcome(e, {}).S, e.now)>>)
           /\ PrintT(<<"MISMATCH-LOGGED-STATE", Norm(ProjStore(e.st), e.now)>>)
+       \/ /\ e.ev = "simage" /\ SImageVerdict(e) = {"violation"}
+          /\ PrintT(<<"MISMATCH-LINE", l>>)
+          /\ PrintT(<<"MISMATCH-IMAGE", e.at, "acked", e.acked, "snapshots completed", e.nsave, "one in progress", e.insave,
+                      "restored lastsave", e.lastsave>>)
+          /\ PrintT(<<"MISMATCH-RESTORED", Got(e)>>)
+          /\ PrintT(<<"MISMATCH-EXPECTED-PREFIXES", [i \in (IF e.insave THEN {e.nsave, e.nsave + 1} ELSE {e.nsave}) \cap (0..Len(saves)) |->
+                        [dataset |-> SnapExpected(i, e.now, TRUE), lastsave |-> LastSaveOf(i)]]>>)
+       \/ /\ e.ev = "save"
+          /\ ~(/\ ~("err" \in DOMAIN e) /\ e.r.t = "simple"
+               /\ e.lastsave = (IF e.done THEN e.now ELSE LastSaveOf(Len(saves)))
+               /\ (e.done \/ (Len(saves) > 0 /\ Checkpoint(st, e.now, FALSE) =
+                                                 Checkpoint(hist[saves[Len(saves)].at + 1].S, e.now, FALSE))))
+          /\ PrintT(<<"MISMATCH-LINE", l>>)
+          /\ PrintT(<<"MISMATCH-NOTE", "SAVE attempt not explained", "done", e.done, "lastsave", e.lastsave, "previous", LastSaveOf(Len(saves))>>)
        \/ /\ e.ev = "fop" /\ FopStep(wpc, e.op, sync)[1] = "bad"
           /\ PrintT(<<"MISMATCH-LINE", l>>)
           /\ PrintT(<<"MISMATCH-FOP", "writer/rewrite pc", wpc, "next file operation", e.op, "sync strategy", sync>>)
@@ -269,7 +339,8 @@ TraceStuck ==
     /\ FALSE
     /\ UNCHANGED vars
 
-Next == TraceReset \/ TraceCmd \/ TraceRewrite \/ TraceFop \/ TraceOther \/ TraceImage \/ TraceAgain \/ TraceStuck
+Next == TraceReset \/ TraceCmd \/ TraceRewrite \/ TraceFop \/ TraceOther \/ TraceImage \/ TraceAgain
+        \/ TraceSave \/ TraceSImage \/ TraceStuck
 
 Spec == Init /\ [][Next]_vars
 
